@@ -681,11 +681,12 @@ def literal_case(draw):
 # (a) signatures x calls
 # ==========================================================================
 DELIMS = {"none": None, "{}": "{}", "[]": "[]", "()": "()", "<>": "<>"}
-TEXT_TYPES = ["none", "str"]
+TEXT_TYPES = ["none", "str", "url"]   # url: # ~ % & are ordinary characters inside the argument only
 CAST_NUM_TYPES = ["int", "float", "dimen"]
 COLL_TYPES = ["list", "list(;)", "dict", "list:int"]
 TOKEN_TYPES = ["Tok", "cs", "nox"]
 TEX_TYPES = ["Number", "Dimen", "Glue"]
+COMMENT = "% zqz\n"          # the one comment the generator writes (no other text contains it)
 WORD_ALPHA = "abcdefghkmnoqrstuwxyzABCDEGHKMNQRTXYZ0123456789"
 PUNCT = [".", ":", "!", "?", "/", "+", "@", "|", ";"]
 
@@ -768,6 +769,18 @@ def arg_value(draw, spec, tags):
     closer = {"[]": "]", "()": ")", "<>": ">"}.get(spec["delim"])
     if typ == "none":
         s, e = draw(text_value(closer, "", True, tags, 0, True))
+        k = draw(st.integers(0, 9))
+        if k == 0:
+            # the tie is an active character (a node of its own, no text) ...
+            w = draw(word())
+            s, e = s + "~" + w, e + w
+            tags.append("tie-in-argument")
+        elif k == 1:
+            # ... and a comment runs to the end of its line, unless an earlier argument left other
+            # category codes behind
+            w = draw(word())
+            s, e = s + COMMENT + draw(st.sampled_from(["", " ", "  "])) + w, e + w
+            tags.append("comment-in-argument")
         return s, {"text": e}, False
     if typ == "str":
         t2 = []
@@ -776,6 +789,14 @@ def arg_value(draw, spec, tags):
             t2.append("str-with-brace-group")
         tags.extend(t2)
         return s, {"str": e}, False
+    if typ == "url":
+        # word pieces joined by the four characters the type makes ordinary while it is read
+        n = draw(st.integers(1, 4))
+        s = draw(word())
+        for _ in range(n):
+            s += draw(st.sampled_from(["#", "~", "%", "&", "/", "."])) + draw(word())
+        tags.append("url-special-character")
+        return s, {"text": s}, False
     if typ == "int":
         t2 = []
         body, form = draw(int_constant(2 ** 31 - 1, t2, allow_alpha=False))
@@ -816,8 +837,15 @@ def arg_value(draw, spec, tags):
             if k == 0:
                 # an item that hides the delimiter inside braces
                 a, b = draw(word()), draw(word())
-                src.append(pad(draw, "{" + a + delim + b + "}"))
-                exp.append(a + delim + b)
+                if draw(st.integers(0, 2)) == 0:
+                    # ... after an inner group has closed (the brace scan must count depth)
+                    c = draw(word())
+                    src.append(pad(draw, "{{" + c + "}" + a + delim + b + "}"))
+                    exp.append(c + a + delim + b)
+                    tags.append("list-item-nested-group-hides-delimiter")
+                else:
+                    src.append(pad(draw, "{" + a + delim + b + "}"))
+                    exp.append(a + delim + b)
                 tags.append("list-item-group-hides-delimiter")
             else:
                 s, e = draw(text_value(closer, ",;=", False, None))
@@ -835,8 +863,13 @@ def arg_value(draw, spec, tags):
                 exp[key] = True
             elif k in (1, 2):
                 a, b = draw(word()), draw(word())
-                src.append(pad(draw, key) + "=" + pad(draw, "{" + a + "," + b + "}"))
-                exp[key] = a + "," + b
+                if draw(st.integers(0, 2)) == 0:
+                    c = draw(word())
+                    src.append(pad(draw, key) + "=" + pad(draw, "{{" + c + "}" + a + "," + b + "}"))
+                    exp[key] = c + a + "," + b
+                else:
+                    src.append(pad(draw, key) + "=" + pad(draw, "{" + a + "," + b + "}"))
+                    exp[key] = a + "," + b
                 tags.append("dict-value-group-hides-delimiter")
             else:
                 s, e = draw(text_value(closer, ",;=", False, None))
@@ -864,13 +897,17 @@ def arg_value(draw, spec, tags):
 
 
 CONTINUATIONS = ["REST", " REST", "x y", "[z]w", "(z)w", "<z>w", "3", ".", "\\relax 3", "{g}h",
-                 "*s", "=q", " [z]", "\\relax REST", ""]
+                 "*s", "=q", " [z]", "\\relax REST", "",
+                 # the catcodes in force after the call are the ones before it
+                 "a~b% gone\nREST", "x~y", "p%c\n q"]
 
 
 def plain_text(cont):
     """textContent of a continuation: control words vanish (with the blanks that end
     them), braces vanish, blank runs are one blank"""
-    t = re.sub(r"\\relax *", "", cont)
+    t = re.sub(r"%[^\n]*\n[ ]*", "", cont)      # a comment runs to the end of its line; state N skips blanks
+    t = t.replace("~", "")                     # the tie is an active character: a node of its own, no text
+    t = re.sub(r"\\relax *", "", t)
     t = t.replace("{", "").replace("}", "")
     t = re.sub(r"[ \n]+", " ", t)
     return t
@@ -1249,7 +1286,7 @@ def check_signature(case):
     # the source is the text itself and not a re-serialised value (TeX-level number types)
     if not any(t.split("/")[0] in TEX_TYPES for t in case["types"]):
         # (plasTeX writes the token \par as a blank line in `source`: equivalent TeX text)
-        want = re.sub(r"[ \n]+", "", re.sub(r"\\par(?![A-Za-z])", "", case["call"]))
+        want = re.sub(r"[ \n]+", "", re.sub(r"\\par(?![A-Za-z])", "", case["call"].replace(COMMENT, "")))
         have = re.sub(r"[ \n]+", "", node.argSource or "")
         if want != have:
             return fail(key_for("source:argSource-differs-from-call"),
@@ -1272,12 +1309,12 @@ def squeeze_keep_edges(s):
 # ==========================================================================
 # streams
 # ==========================================================================
-RULE_SIG = ("signature of 1-6 argument specs (delimiter none/{}/[]/()/<>; type none,str,int,float,dimen,"
+RULE_SIG = ("signature of 1-6 argument specs (delimiter none/{}/[]/()/<>; type none,str,url,int,float,dimen,"
             "list,list(;),list:int,dict,Tok,cs,nox,Number,Dimen,Glue; optional leading * and an = anywhere) "
             "rendered to an args string and registered as a fresh Command; the call is rendered from "
             "generated values with random legal blanks/newlines, nested brace groups, nested same-kind "
             "brackets, brackets hidden in braces, group-hidden list/dict delimiters, optionals "
-            "present/absent, and a continuation (text, a bracket that must not be taken, digit, \\relax). "
+            "present/absent, and a continuation (text, a bracket that must not be taken, digit, \\relax, text with a tie and a comment). "
             "Non-trivial: an optional argument absent, or a nested same-kind/hidden bracket, or a typed "
             "(non-text) argument.")
 RULE_LIT = ("literal = sign run (<=5 of + - blank) + decimal | 'octal | \"HEX | `c | `\\c | register | "
